@@ -91,7 +91,9 @@ class ICMPPacket(BaseModel):
 
     def __init__(self, **kwargs):
         if not kwargs.get("identifier"):
-            kwargs["identifier"] = secrets.randbits(16)
+            # always five digits: the identifier is part of the serialised frame, so its number of digits would
+            # otherwise make the frame size (and with it link loads and capacity checks) vary from run to run
+            kwargs["identifier"] = 10000 + secrets.randbits(15)
         super().__init__(**kwargs)
 
     @field_validator("icmp_code")  # noqa
